@@ -53,7 +53,7 @@ EXPR_KINDS = {
     "subzm": (lambda A, s: A["y" + s] - 0 % A["x" + s], [("x", "num"), ("y", "num")]),
     "prodz": (lambda A, s: A["y" + s] * (0 // A["x" + s]), [("x", "num"), ("y", "num")]),
 }
-CONST_KINDS = {"0": 0, "1": 1, "-1": -1, "2": 2, "0.0": 0.0, "1.0": 1.0, "True": True, "False": False, "c": "c"}
+CONST_KINDS = {"0": 0, "1": 1, "-1": -1, "2": 2, "0.0": 0.0, "1.0": 1.0, "0.5": 0.5, "True": True, "False": False, "c": "c"}
 QUICK_EXPR = list(EXPR_KINDS)
 
 
@@ -99,6 +99,10 @@ def items(tier):
         for m2 in ["and_", "or_", "not_"]:
             for grp in "LR":
                 out.append(("ctor2", m1, m2, grp))
+    # a logical constructor method applied to the result of a comparison method
+    for cm in ["eq", "ne", "lt", "le", "gt", "ge"]:
+        for m2 in ["not_", "and_", "or_"]:
+            out.append(("ctor3", cm, m2))
     chain_ops = ["+", "-", "*"] if tier == "quick" else ["+", "-", "*", "/", "//", "%"]
     atoms = ["v", "0", "1", "-1", "c"]
     for o1 in chain_ops:
@@ -313,6 +317,7 @@ def _run_program(text, atom_list, fn, fam, tier, res, eq=None, sig_prefix="", tw
             continue     # plain computation undefined here: nothing required
         why = None
         model = None
+        goal = None
         if built[0] == "exc":
             if isinstance(built[1], TypeError):
                 res.note = "refusal (TypeError) while building"
@@ -350,6 +355,27 @@ def _run_program(text, atom_list, fn, fam, tier, res, eq=None, sig_prefix="", tw
         differs = (o_plain[0] == "val" and (o_tree[0] == "exc" and not isinstance(o_tree[1], TypeError)
                                             or o_tree[0] == "val" and not _ceq(o_tree[1], o_plain[1])))
         envtxt = ", ".join(f"{k}={v}" for k, v in sorted({**_show_env(cenv), **cconsts}.items()))
+        if not differs and goal is not None and "pow(" in str(goal):
+            # the symbolic difference goes through the uninterpreted general power: look for a concrete witness on a
+            # small grid (the real pow decides); none found = inconclusive, never a violation
+            import itertools as _it
+            names = [k for k, v_ in cenv.items() if isinstance(v_, (int, float)) or type(v_).__name__ == "Fraction"][:3]
+            for vals in _it.product((-3, -2, -1, 0, 1, 2, 3), repeat=len(names)):
+                cenv2 = dict(cenv)
+                cenv2.update(dict(zip(names, vals)))
+                c_plain2 = {k: (cconsts[k] if k in cconsts else cenv2[k]) for k in plain_atoms}
+                o_plain = H.outcome(lambda: (twin_fn or fn)(c_plain2))
+                o_tree = H.outcome(lambda: _eval_tree(fn(c_tree), cenv2))
+                if (o_plain[0] == "val" and not isinstance(o_plain[1], complex) and o_tree[0] == "val"
+                        and not isinstance(o_tree[1], complex) and not _ceq(o_tree[1], o_plain[1])
+                        and abs(complex(o_tree[1]) - complex(o_plain[1])) > 1e-9):
+                    differs, cenv = True, cenv2
+                    envtxt = ", ".join(f"{k}={v}" for k, v in sorted({**_show_env(cenv), **cconsts}.items()))
+                    break
+            if not differs:
+                res.status = "inconclusive" if res.status == "ok" else res.status
+                res.note = "counterexample depends on the uninterpreted general power; no concrete witness on the grid"
+                continue
         if not differs:
             raise HarnessError(f"counterexample did not reproduce: {text} [{fam}] {envtxt}: {why}; "
                                f"plain {H.show_outcome(o_plain)} tree {H.show_outcome(o_tree)}")
@@ -415,6 +441,8 @@ def check_item(item, tier):
         return _run_program(text, atom_list, fn, "int", tier, res, eq=mat_eq_term, sig_prefix="mat: ")
     if t == "ctor2":
         return _check_ctor2(item, tier)
+    if t == "ctor3":
+        return _check_ctor3(item, tier)
     if t == "ctor":
         return _check_ctor(item, tier)
     if t == "order":
@@ -482,6 +510,22 @@ def _check_ctor2(item, tier):
             return _logic(m2, _logic(m1, x1, x2), x3)
         inner = _logic(m2, x2, x3)
         return _logic(m1, x1, inner) if m1 != "not_" else _logic("not_", inner)
+
+    def eq(a, b):
+        return sym.truth_term(a) == sym.truth_term(b)
+    return _run_program(text, atom_list, fn, "int", tier, res, eq=eq)
+
+
+def _check_ctor3(item, tier):
+    cm, m2 = item[1:]
+    text = f"x1.{cm}(x2).{m2}({'x3' if m2 != 'not_' else ''})"
+    res = ItemResult(item=text, sample={"program": text})
+    atom_list = [("x1", "num"), ("x2", "num"), ("x3", "num")]
+
+    def fn(A):
+        x1, x2, x3 = A["x1"], A["x2"], A["x3"]
+        c = getattr(x1, cm)(x2) if isinstance(x1, p.Expression) else _CT[cm](x1, x2)
+        return _logic(m2, c, x3)
 
     def eq(a, b):
         return sym.truth_term(a) == sym.truth_term(b)
